@@ -1198,7 +1198,8 @@ class PDFCIDFont(PDFFont):
                 cmap_name = literal_name(spec["Encoding"])
             else:
                 cmap_name = literal_name(spec_encoding["CMapName"])
-        except KeyError:
+        except (KeyError, TypeError):
+            # no Encoding, or one that is neither a name nor a CMap stream
             if strict:
                 raise PDFFontError("Encoding is unspecified")
 
